@@ -22,10 +22,11 @@ SPEC = {
                     "vlib/avm.py callsub/retsub/proto/frame_dig/frame_bury semantics"],
     "min_evaluations": {"quick": 8000, "thorough": 100000},
     "must_reach": ["agree_approve", "recursion_self", "recursion_mutual", "recursion_mutual_diffkind", "conv_scratch", "conv_frame",
-                   "byref_recursion_rejected", "calls_completed", "ladder_cases", "abi_recursion_probe_ok", "recipes_byref_family", "recipes_recursive_byref_local", "byref_forwarded", "declared_type_probe_ok"],
+                   "byref_recursion_rejected", "calls_completed", "ladder_cases", "abi_recursion_probe_ok", "recipes_byref_family", "recipes_recursive_byref_local", "byref_forwarded", "declared_type_probe_ok", "optimised_call_programs", "optimised_agree"],
     "shard_timeout": {"quick": 2400, "thorough": 14400},
 }
 
+KNOWN_OPT = "C02-optimizer-unpaired-store"
 NONLOCAL = "C02-nonlocal-exit-in-operand"
 
 
@@ -333,6 +334,13 @@ def check_recipe(acc, recipe, version, optsets, ctxs, origin):
             acc.counters["dropped_" + dropped] += 1
         refs.append(ref)
     info = rcase.routine_info_for(recipe)
+    if int(key, 16) % 4 == 0:
+        # the same calls with the scratch-slot optimisation on (as a user gets them by default from v9), under both conventions;
+        # the one known optimiser defect is attributed by mechanism exactly as in C01/C03
+        from . import c01
+        c01.default_options_run(acc, recipe, version, ctxs, refs, origin, None if version >= 9 else True,
+                                fp=[None, False][(int(key, 16) >> 3) % 2], known_id=KNOWN_OPT)
+        acc.counters["optimised_call_programs"] += 1
     for o in optsets:
         shared = None
         if o.get("reuse_pool") is not None:
@@ -593,6 +601,8 @@ def run_shard(shard):
 
 def classify(v):
     case = v.get("case") or {}
+    if case.get("mechanism") == KNOWN_OPT and case.get("optimizer_unpaired"):
+        return KNOWN_OPT
     if case.get("origin") == "nonlocal_probe" and case.get("recipe") and has_nonlocal_exit_in_operand(case["recipe"]):
         return NONLOCAL
     return None
